@@ -195,3 +195,74 @@ Definition check_proxy (c : pcase) : N :=
 Definition show_proxy (c : pcase) :=
   (proxy_model (pc_object_only c) (pc_unit c) (pc_e c) (pc_p c) (pc_frame c),
    match pc_frame c with JObj ms => Some (spec_proxy c ms) | _ => Some PDecode end).
+
+(* ---------------------------------------------------------------- built calls and replies (C05) *)
+Record bccase := {
+  bc_m : shape;
+  bc_frame : jval;                 (* the METHOD value, decoded with serde_json::from_str::<M> *)
+  bc_ops : list (flag * bool);     (* the setters, in the order they were applied *)
+  bc_built : bool;                 (* the method value decoded *)
+  bc_meth : option rval;           (* call.method() *)
+  bc_get : list bool;              (* call.oneway(), call.more(), call.upgrade() *)
+  bc_enc : option jval             (* serde_json::to_string(&call) *)
+}.
+
+Fixpoint bools_eqb (a b : list bool) : bool :=
+  match a, b with
+  | [], [] => true
+  | x :: a', y :: b' => Bool.eqb x y && bools_eqb a' b'
+  | _, _ => false
+  end.
+
+(*  1  the method value decodes differently from the model (not about the builder)
+    2  SPEC: the getters differ from the logical value (each flag = its last setter, else false)
+    4  SPEC: the encoding differs from the encoding of the logical value *)
+Definition check_build_call (c : bccase) : N :=
+  match decoder (bc_m c) Direct (bc_frame c) with
+  | None => bit (bc_built c) 1
+  | Some meth =>
+      let v := build_call meth (bc_ops c) in
+      (bit (negb (bc_built c) || negb (orval_eqb (Some meth) (bc_meth c))) 1 +
+       bit (bc_built c && negb (bools_eqb [cv_oneway v; cv_more v; cv_upgrade v] (bc_get c))) 2 +
+       bit (bc_built c && negb (ojval_eqb (enc_call (bc_m c) (call_rval v)) (bc_enc c))) 4)%N
+  end.
+
+Definition show_build_call (c : bccase) :=
+  match decoder (bc_m c) Direct (bc_frame c) with
+  | None => None
+  | Some meth => let v := build_call meth (bc_ops c) in
+                 Some ([cv_oneway v; cv_more v; cv_upgrade v], enc_call (bc_m c) (call_rval v))
+  end.
+
+Record brcase := {
+  br_p : shape;
+  br_frame : option jval;          (* the parameters (None: Reply::new(None)) *)
+  br_ops : list (option bool);     (* set_continues calls, in order *)
+  br_built : bool;
+  br_params : option rval;         (* reply.parameters() *)
+  br_cont : option rval;           (* reply.continues() *)
+  br_enc : option jval
+}.
+
+Definition model_params (c : brcase) : option rval :=
+  match br_frame c with
+  | None => Some RNone
+  | Some v => option_map RSome (decoder (br_p c) Direct v)
+  end.
+
+Definition check_build_reply (c : brcase) : N :=
+  match model_params c with
+  | None => bit (br_built c) 1
+  | Some ps =>
+      let v := build_reply ps (br_ops c) in
+      (bit (negb (br_built c) || negb (orval_eqb (Some ps) (br_params c))) 1 +
+       bit (br_built c && negb (orval_eqb (Some (match rv_continues v with Some b => RSome (RBool b) | None => RNone end))
+                                         (br_cont c))) 2 +
+       bit (br_built c && negb (ojval_eqb (enc_reply (br_p c) (reply_rval v)) (br_enc c))) 4)%N
+  end.
+
+Definition show_build_reply (c : brcase) :=
+  match model_params c with
+  | None => None
+  | Some ps => let v := build_reply ps (br_ops c) in Some (rv_continues v, enc_reply (br_p c) (reply_rval v))
+  end.
